@@ -348,6 +348,51 @@ impl Dec {
     }
 }
 
+fn parse_dec(s: &str) -> Option<Dec> {
+    let (k, c) = match s.split_once(':') {
+        Some((k, c)) => (k, Some(parse_cl(c)?)),
+        None => (s, None),
+    };
+    match (k, c) {
+        ("dont", None) => Some(Dec::Dont),
+        ("ignore", None) => Some(Dec::Ignore),
+        ("same", c) => Some(Dec::Same(c)),
+        ("next", c) => Some(Dec::Next(c)),
+        _ => None,
+    }
+}
+
+impl Dec {
+    fn to_real(&self) -> RetryDecision {
+        match self {
+            Dec::Same(c) => RetryDecision::RetrySameTarget(*c),
+            Dec::Next(c) => RetryDecision::RetryNextTarget(*c),
+            Dec::Ignore => RetryDecision::IgnoreWriteError,
+            Dec::Dont | Dec::Unknown => RetryDecision::DontRetry,
+        }
+    }
+}
+
+/// Test policy for `runx`: answers the i-th consultation of a session with the i-th scripted decision.
+#[derive(Debug)]
+struct ScriptedPolicy(Arc<Vec<Dec>>);
+struct ScriptedSession(Arc<Vec<Dec>>, usize);
+impl RetryPolicy for ScriptedPolicy {
+    fn new_session(&self) -> Box<dyn RetrySession> {
+        Box::new(ScriptedSession(Arc::clone(&self.0), 0))
+    }
+}
+impl RetrySession for ScriptedSession {
+    fn decide_should_retry(&mut self, _request_info: RequestInfo) -> RetryDecision {
+        let d = self.0.get(self.1).map(|d| d.to_real()).unwrap_or(RetryDecision::DontRetry);
+        self.1 += 1;
+        d
+    }
+    fn reset(&mut self) {
+        self.1 = 0;
+    }
+}
+
 fn ops(s: &str) -> Vec<&str> {
     if s == "-" { vec![] } else { s.split(';').filter(|x| !x.is_empty()).collect() }
 }
@@ -445,7 +490,8 @@ pub fn run(case: &str, ctx: &mut Ctx) -> String {
     let Some((pol, idem)) = parse_policy(w[1]) else { return "bad-case".to_owned() };
     match w[0] {
         "dec" => run_dec(pol, idem, w[3], ctx),
-        "run" => run_exec(pol, idem, w[2], w[3], ctx),
+        "run" => run_exec(Some(pol), idem, w[2], w[3], ctx),
+        "runx" if pol == Pol::Fallthrough => run_exec(None, idem, w[2], w[3], ctx),
         _ => "bad-case".to_owned(),
     }
 }
@@ -496,7 +542,8 @@ fn run_dec(pol: Pol, idem: bool, steps: &str, ctx: &mut Ctx) -> String {
     list_or_dash(out, " ")
 }
 
-fn run_exec(pol: Pol, idem: bool, clplan: &str, outs: &str, ctx: &mut Ctx) -> String {
+/// `pol = None`: the scripted test policy (`runx`), each failing outcome is written `<err>~<decision>`.
+fn run_exec(pol: Option<Pol>, idem: bool, clplan: &str, outs: &str, ctx: &mut Ctx) -> String {
     let Some((c, pl)) = clplan.split_once('/') else { return "bad-case".to_owned() };
     let Some(cl0) = parse_cl(c) else { return "bad-case".to_owned() };
     let mut plan: Vec<bool> = Vec::new();
@@ -510,10 +557,20 @@ fn run_exec(pol: Pol, idem: bool, clplan: &str, outs: &str, ctx: &mut Ctx) -> St
         }
     }
     let mut outcomes: Vec<Option<RequestAttemptError>> = Vec::new();
+    let mut script: Vec<Dec> = Vec::new();
     for o in ops(outs) {
         if o == "ok" {
             outcomes.push(None);
+            script.push(Dec::Dont);
         } else {
+            let o = if pol.is_none() {
+                let Some((e, d)) = o.split_once('~') else { return "bad-case".to_owned() };
+                let Some(d) = parse_dec(d) else { return "bad-case".to_owned() };
+                script.push(d);
+                e
+            } else {
+                o
+            };
             let Some(e) = parse_err(o) else { return "bad-case".to_owned() };
             if err_name(&e, true) != o {
                 return "bad-case".to_owned();
@@ -523,7 +580,11 @@ fn run_exec(pol: Pol, idem: bool, clplan: &str, outs: &str, ctx: &mut Ctx) -> St
     }
 
     let rec = Arc::new(Mutex::new(Recorded::default()));
-    let policy = RecordingPolicy { inner: pol.make(), rec: Arc::clone(&rec) };
+    let inner: Box<dyn RetryPolicy> = match pol {
+        Some(p) => p.make(),
+        None => Box::new(ScriptedPolicy(Arc::new(script.clone()))),
+    };
+    let policy = RecordingPolicy { inner, rec: Arc::clone(&rec) };
     let log: RefCell<Vec<(usize, Consistency)>> = RefCell::new(Vec::new());
     let calls = Cell::new(0usize);
     // A broken driver could loop forever on the same target: the script ends with successes, so it cannot.
@@ -558,7 +619,8 @@ fn run_exec(pol: Pol, idem: bool, clplan: &str, outs: &str, ctx: &mut Ctx) -> St
 
     // ---------------- oracle (from the property statement; independent of the Lean model) ----------------
     // 1. a non-idempotent request is sent again only after a failure proving non-application
-    if !idem {
+    //    (1.-3. speak about the built-in policies; the scripted test policy is checked by 4. only)
+    if !idem && pol.is_some() {
         for k in 0..n.saturating_sub(1) {
             match outcome_err(k) {
                 Some(e) if proves_not_applied(e) => {}
@@ -571,18 +633,20 @@ fn run_exec(pol: Pol, idem: bool, clplan: &str, outs: &str, ctx: &mut Ctx) -> St
         }
     }
     // 2. the default policy never retries at serial consistency
-    if pol == Pol::Default && cl0.is_serial() && n > 1 {
+    if pol == Some(Pol::Default) && cl0.is_serial() && n > 1 {
         ctx.fail(format!("default policy at {} consistency: {} attempts", cl_name(cl0), n));
     }
-    if pol == Pol::Fallthrough && n > 1 {
+    if pol == Some(Pol::Fallthrough) && n > 1 {
         ctx.fail(format!("fallthrough policy: {} attempts", n));
     }
     // 3. attempts <= plan length + the policy's fixed number of same-node retries
-    if n > plan.len() + pol.same_node_retries() {
-        ctx.fail(format!(
-            "{} attempts > plan length {} + {} same-node retries of the {} policy",
-            n, plan.len(), pol.same_node_retries(), pol.name()
-        ));
+    if let Some(pol) = pol {
+        if n > plan.len() + pol.same_node_retries() {
+            ctx.fail(format!(
+                "{} attempts > plan length {} + {} same-node retries of the {} policy",
+                n, plan.len(), pol.same_node_retries(), pol.name()
+            ));
+        }
     }
     // 4. the driver sends exactly the attempts the policy decided
     let completed = matches!(result, Ok(hooks::ExecOutcome::Completed(_)));
@@ -809,7 +873,7 @@ pub fn generate(rng: &mut Rng, tier: Tier, emit: &mut dyn FnMut(String)) {
 
     // (a) decision tables: every error class x idem x every consistency x every session state reachable by a
     //     history of length <= 3 (quick: <= 2 plus sampled length 3)
-    let reps = if quick { 1 } else { 6 };
+    let reps = if quick { 1 } else { 3 };
     for _ in 0..reps {
         for pol in pols {
             let (alpha, max_len): (&[&str], usize) = match pol {
@@ -840,7 +904,7 @@ pub fn generate(rng: &mut Rng, tier: Tier, emit: &mut dyn FnMut(String)) {
         }
     }
     // random longer histories through one session (random consistencies at every step)
-    for _ in 0..(if quick { 20000 } else { 300000 }) {
+    for _ in 0..(if quick { 20000 } else { 200000 }) {
         let pol = *rng.pick(&pols);
         let classes = err_classes(rng);
         let len = rng.range(1, 7) as usize;
@@ -873,7 +937,7 @@ pub fn generate(rng: &mut Rng, tier: Tier, emit: &mut dyn FnMut(String)) {
         seqs.extend(next.iter().cloned());
         frontier = next;
     }
-    let cls_small: &[&str] = if quick { &["quorum", "eachquorum", "serial"] } else { &["quorum", "eachquorum", "serial", "localserial", "one"] };
+    let cls_small: &[&str] = &["quorum", "eachquorum", "serial"];
     for plan in all_plans(3) {
         for pol in pols {
             for idem in ["i", "n"] {
@@ -921,6 +985,52 @@ pub fn generate(rng: &mut Rng, tier: Tier, emit: &mut dyn FnMut(String)) {
             }
         }
     }
+    // (c) the loop under a scripted test policy: every decision arm with every consistency (the built-in policies
+    //     never return RetryNextTarget(Some(_)), IgnoreWriteError only in one cell, ...)
+    let dec_alpha = ["dont", "ignore", "same", "next", "same:one", "next:two", "next:serial", "same:eachquorum"];
+    for plan in all_plans(3) {
+        if !plan.iter().any(|ok| *ok) {
+            continue;
+        }
+        for idem in ["i", "n"] {
+            for d0 in dec_alpha {
+                emit(format!("runx fallthrough/{} quorum/{} broken~{}", idem, plan_str(&plan), d0));
+                for d1 in dec_alpha {
+                    emit(format!("runx fallthrough/{} quorum/{} db.syntax~{};db.bootstrapping~{}", idem, plan_str(&plan), d0, d1));
+                    emit(format!("runx fallthrough/{} all/{} db.syntax~{};alloc~{};ok", idem, plan_str(&plan), d0, d1));
+                }
+            }
+        }
+    }
+    for _ in 0..(if quick { 40000 } else { 400000 }) {
+        let plan_len = rng.range(1, 5) as usize;
+        let plan: Vec<bool> = (0..plan_len).map(|_| !rng.chance(1, 5)).collect();
+        let len = rng.below(plan_len as u64 + 4) as usize;
+        let outs: Vec<String> = (0..len)
+            .map(|i| {
+                if i + 1 == len && rng.chance(1, 2) {
+                    "ok".to_string()
+                } else {
+                    let d = match rng.below(12) {
+                        0 => "dont".to_string(),
+                        1 => "ignore".to_string(),
+                        2..=4 => "same".to_string(),
+                        5..=7 => "next".to_string(),
+                        8 | 9 => format!("same:{}", rng.pick(&CLS).0),
+                        _ => format!("next:{}", rng.pick(&CLS).0),
+                    };
+                    format!("{}~{}", rng.pick(&ALPHABET[1..]), d)
+                }
+            })
+            .collect();
+        emit(format!(
+            "runx fallthrough/{} {}/{} {}",
+            if rng.bool() { "i" } else { "n" },
+            rng.pick(&CLS).0,
+            plan_str(&plan),
+            list_or_dash(outs, ";")
+        ));
+    }
     // random histories: plans of 0..5 targets incl. connection failures, outcomes of length <= plan + 3.
     // Half of them draw mostly from the errors after which a retry is plausible (long runs).
     const FRIENDLY_IDEM: [&str; 12] = [
@@ -932,7 +1042,7 @@ pub fn generate(rng: &mut Rng, tier: Tier, emit: &mut dyn FnMut(String)) {
         "db.bootstrapping", "alloc", "db.unavailable.2.3", "db.unavailable.3.4", "db.unavailable.0.1",
         "db.readtimeout.2.2.0", "db.readtimeout.1.3.1", "db.readtimeout.0.1.0",
     ];
-    for _ in 0..(if quick { 120000 } else { 2000000 }) {
+    for _ in 0..(if quick { 120000 } else { 800000 }) {
         let pol = match rng.below(7) {
             0 => Pol::Fallthrough,
             1..=3 => Pol::Default,
@@ -940,7 +1050,7 @@ pub fn generate(rng: &mut Rng, tier: Tier, emit: &mut dyn FnMut(String)) {
         };
         let idem = rng.chance(2, 5);
         let friendly = rng.bool();
-        let plan_len = if friendly { rng.range(1, 5) as usize } else { rng.below(6) as usize };
+        let plan_len = if friendly || !rng.chance(1, 4) { rng.range(1, 5) as usize } else { rng.below(6) as usize };
         let plan: Vec<bool> = (0..plan_len).map(|_| !rng.chance(1, if friendly { 6 } else { 4 })).collect();
         let cl0 = if rng.chance(1, 8) { *rng.pick(&["serial", "localserial"]) } else { rng.pick(&CLS).0 };
         let len = if friendly { plan_len + 3 - rng.below(2) as usize } else { rng.below(plan_len as u64 + 4) as usize };
